@@ -15,7 +15,12 @@
 // along with this program.  If not,ls see <http://www.gnu.org/licenses/>.
 use crate::revision::Revision;
 use impl_tools::autoimpl;
+#[cfg(not(melda_verif))]
 use std::collections::{BTreeSet, HashMap, HashSet};
+#[cfg(melda_verif)]
+use std::collections::BTreeSet;
+#[cfg(melda_verif)]
+use melda_verif_shim::collections::{HashMap, HashSet};
 
 #[autoimpl(PartialEq, Eq, PartialOrd, Ord ignore self.staging)]
 #[autoimpl(Debug, Clone)]
